@@ -1,9 +1,49 @@
 // C05 harness: the flavour-independent logic, compiled once per binary (identical for all units, so ccache shares it).
 #include "c05_core.h"
 
+#include <csignal>
+#include <cstdio>
+#include <sys/time.h>
+#include <unistd.h>
+
 namespace c05 {
+
+// CPU-time watchdog: a reduction that never terminates (seen with seeded coefficient mutations) would otherwise block a shard
+// until the orchestrator's wall-clock watchdog.  ITIMER_PROF counts CPU time of the process, so machine load cannot fire it;
+// a normal case needs ~10-50 ms.  The message imitates a terminate() line so that the orchestrator derives a stable,
+// descriptive signature; the history of the case is flushed like for any fatal signal.
+static const int WD_SECONDS = 20;
+static const char* g_wd_what = "";
+static const char* const* g_wd_call = nullptr;
+
+static void wd_handler(int) {
+  char buf[400];
+  int n = snprintf(buf, sizeof buf,
+                   "\nterminate called after throwing an instance of 'c05::cpu_watchdog[%s,call=%s]'\n"
+                   "  the case used more than %d s of CPU time: non-terminating operation\n",
+                   g_wd_what, g_wd_call && *g_wd_call ? *g_wd_call : "?", WD_SECONDS);
+  if (n > 0) { ssize_t w = ::write(2, buf, (size_t)n); (void)w; }
+  vh::dump_history_on_fatal();
+  _exit(86);
+}
+static void wd_arm(int seconds) {
+  struct itimerval it;
+  it.it_interval.tv_sec = 0; it.it_interval.tv_usec = 0;
+  it.it_value.tv_sec = seconds; it.it_value.tv_usec = 0;
+  setitimer(ITIMER_PROF, &it, nullptr);
+}
+
 void run_history(vh::Case& c, const char* cfg, const Traits& t, MatrixIO& io) {
   Run run(c, cfg, t, io);
+  static char what[64];
+  snprintf(what, sizeof what, "fl=%s,field=%s", t.fl == F_BND ? "boundary" : t.fl == F_RU ? "ru" : "chain", t.z2 ? "z2" : "zp");
+  g_wd_what = what;
+  g_wd_call = &run.cur_call;
+  signal(SIGPROF, wd_handler);
+  wd_arm(WD_SECONDS);
   run.run();
+  wd_arm(0);
+  g_wd_call = nullptr;
 }
+
 }  // namespace c05
